@@ -9,3 +9,7 @@ import SynRBLModel.Properties.C08
 import SynRBLModel.Properties.C11
 import SynRBLModel.Properties.C13
 import SynRBLModel.Properties.C18
+import SynRBLModel.Properties.C15
+import SynRBLModel.Properties.C16
+import SynRBLModel.Properties.C17
+import SynRBLModel.Properties.C19
